@@ -6,6 +6,7 @@
     implementation agrees is decided by the differential check against the reference interpreter. *)
 From WalModel Require Import Eval.
 From WalModel.proofs Require Import Balanced EnvProofs.
+From WalModel.proofs Require FrameInv ContInv.
 Local Open Scope Z_scope.
 
 (** a function body sees the bindings of its definition site, not of its caller: the body runs
@@ -110,3 +111,20 @@ Theorem let_bindings_vanish_and_set_creates_none : forall V lf f sc e st a st',
   ResolveLet.Inv V sc st' /\ Balanced.R st st'.
 Proof. exact ResolveLet.fragment_keeps_binding_structure. Qed.
 Print Assumptions let_bindings_vanish_and_set_creates_none.
+
+(** no frame ever binds a name twice — define refuses a bound name, assignment replaces in place, a new frame is
+    empty — through every completed evaluation (whole evaluator, any fuel) and every history of API operations *)
+Theorem no_frame_binds_a_name_twice : forall lf fuel e st v st',
+  eval lf fuel e st = Ok v st' -> FrameInv.fwf st -> FrameInv.fwf st'.
+Proof. exact FrameInv.eval_keeps_keys_distinct. Qed.
+Print Assumptions no_frame_binds_a_name_twice.
+
+Theorem distinct_keys_means : forall st,
+  FrameInv.fwf st <-> Forall (fun f => NoDup (map fst (f_binds f))) (st_frames st).
+Proof. intros st. reflexivity. Qed.
+Print Assumptions distinct_keys_means.
+
+Theorem every_reachable_state_has_distinct_keys : forall ops,
+  FrameInv.fwf (fold_left ContInv.apply_api ops Api.empty_state).
+Proof. exact FrameInv.reachable_states_have_distinct_keys. Qed.
+Print Assumptions every_reachable_state_has_distinct_keys.
